@@ -224,6 +224,12 @@ def extra_templates():
                     "ref_text": "k :: ?a\nstart :: fn do\n    print(2)\nend\n", "dom": {"a": (0, 1)}, "expect": "accept"})
     out.append({"name": "entry_point_own_start_and_imported_module_with_start", "role": "entry-point-is-the-main-file's-start(own)", "text": "use a\nstart :: fn do\n    print(?a)\nend\n", "files": {"a.sy": "start :: fn do\n    print(7)\nend\n"},
                 "ref_text": "start :: fn do\n    print(?a)\nend\n", "dom": {"a": (0, 3)}, "expect": "accept"})
+    # (6) a folder's exports.sy that re-exports names of its leaf files (what exports.sy is for), imported as a namespace and by name
+    # (importing a re-exported name BY NAME, `from sub/ use one`, is pinned as an error by the repo's own tests/import/faulty_from_circular.sy - not claimed here)
+    for style, imp, q in (("use", "use sub/\n", "sub."), ("use_as", "use sub/ as s\n", "s.")):
+        out.append({"name": "folder_exports_reexport_" + style, "role": "folder-exports-re-export(%s)" % style, "text": imp + "start :: fn do\n    print(%sone + ?a)\n    print(%stwo(?a))\nend\n" % (q, q),
+                    "files": {"sub/leaf.sy": "one :: 1\n", "sub/other_leaf.sy": "two :: fn n: int -> int do\n    ret n * 2\nend\n", "sub/exports.sy": "from leaf use one\nfrom other_leaf use two\n"},
+                    "ref_text": "one :: 1\ntwo :: fn n: int -> int do\n    ret n * 2\nend\nstart :: fn do\n    print(one + ?a)\n    print(two(?a))\nend\n", "dom": {"a": (0, 3)}, "expect": "accept"})
     # (5) one file reached through a /-rooted path and through a relative path is ONE module (one copy of its state)
     cnt = "count := 0\nbump :: fn do\n    count += 1\nend\n"
     ref = cnt + "peek :: fn -> int do\n    ret count * 10\nend\nstart :: fn do\n    bump()\n    bump()\n    print(peek() + ?a)\n    print(count)\nend\n"
